@@ -1,4 +1,4 @@
-package main
+package kit
 
 // Rng is a splitmix64 generator: every random choice of a driver derives from
 // one state seeded by VERIF_SEED, so a disagreement replays exactly.
